@@ -19,7 +19,7 @@ pub const INFO: PropInfo = PropInfo {
            distinct = distinct hash of (requests, deliveries)",
     state_measure: "(delivery family, cut-position classes, short reads) combinations reached",
     assumptions: &["request heads stay below 1 KiB (longer heads are outside the supported subset, see C02)", "requests are well-formed (class W of C02); the last one may carry Connection: close, or be a complete malformed head (which has no defined extent, so nothing may follow it): it must be refused exactly once under every delivery"],
-    expected_probes: &["c06.cut_in_request_line", "c06.cut_in_header", "c06.cut_at_blank_line", "c06.cut_in_body", "c06.two_requests_one_segment", "c06.short_read_fired", "c06.body_over_buffer_split", "c06.malformed_last_request"],
+    expected_probes: &["c06.cut_in_request_line", "c06.cut_in_header", "c06.cut_at_blank_line", "c06.cut_in_body", "c06.two_requests_one_segment", "c06.short_read_fired", "c06.body_over_buffer_split", "c06.malformed_last_request", "c06.grey_last_request"],
 };
 
 #[derive(Clone, Debug, Serialize, Deserialize)]
@@ -136,6 +136,19 @@ pub fn generate(cfg: &RunCfg, out: &mut Outcome) -> Scenario {
         let mut last = sess::gen_sequence(9, &SeqOpts { min: 1, max: 1, allow_malformed: false, allow_close: false, max_body: 0, allow_delay: false, shapes: false }).remove(0);
         last.malformed = sess::malform(&last.spec);
         if last.malformed.is_some() {
+            reqs.push(last);
+        }
+    }
+    // (wave 14) empty lines in front of a request line: RFC 9112 2.2 lets a server skip them, the tree refuses them by closing —
+    // either is fine (no reference value, kind `grey-…`), but whichever it is must not depend on where the bytes are cut
+    if !reqs.iter().any(|r| r.wants_close() || r.malformed.is_some()) && t::chance(1, 6) {
+        let mut last = sess::gen_sequence(9, &SeqOpts { min: 1, max: 1, allow_malformed: false, allow_close: false, max_body: 0, allow_delay: false, shapes: false }).remove(0);
+        let mut s2 = last.spec.clone();
+        s2.body = None;
+        let mut bytes = b"\r\n".repeat(1 + t::weighted(&[2, 4, 1]));
+        bytes.extend_from_slice(&s2.head_bytes());
+        if bytes.len() < 1000 {
+            last.malformed = Some(("grey-leading-crlf".to_string(), crate::client::hex(&bytes)));
             reqs.push(last);
         }
     }
@@ -331,7 +344,11 @@ fn execute(sc: &Scenario, out: &mut Outcome) {
     // the baseline against the reference
     for (k, it) in sc.reqs.iter().enumerate() {
         let shown = format!("{:?}", String::from_utf8_lossy(&it.bytes()).chars().take(160).collect::<String>());
+        let grey = it.malformed.as_ref().is_some_and(|(kind, _)| kind.starts_with("grey-"));
         match b.resps.get(k) {
+            Some(Ok(_)) | Some(Err(RecvErr::Closed(_))) if grey => {
+                out.probe("c06.grey_last_request");
+            }
             Some(Ok(r)) if it.malformed.is_some() => {
                 out.probe("c06.malformed_last_request");
                 if r.status < 400 || r.header("X-Dump").is_some() {
@@ -368,6 +385,23 @@ fn execute(sc: &Scenario, out: &mut Outcome) {
         let tag = if hz.is_empty() { "benign".to_string() } else { hz };
         for k in 0..sc.reqs.len() {
             let shown = format!("{:?}", String::from_utf8_lossy(&sc.reqs[k].bytes()).chars().take(120).collect::<String>());
+            if sc.reqs[k].malformed.as_ref().is_some_and(|(kind, _)| kind.starts_with("grey-")) {
+                // no reference value: served or refused, the same under every delivery
+                let same = match (o.resps.get(k), &b.resps[k]) {
+                    (Some(Ok(r)), Ok(br)) => r.masked() == br.masked(),
+                    (Some(Err(RecvErr::Closed(p))), Err(RecvErr::Closed(bp))) => p == bp,
+                    _ => false,
+                };
+                if !same {
+                    out.violate(
+                        "delivery-equals-baseline",
+                        format!("{tag}/grey-differs"),
+                        format!("delivery {di} ({} cuts {:?} gaps {:?} short_reads {}) response {k}: {}; baseline: {}; request={shown}", d.family, d.cuts, d.gaps_ms, d.short_reads, o.resps.get(k).map(describe).unwrap_or("never attempted".into()), describe(&b.resps[k])),
+                    );
+                    return;
+                }
+                continue;
+            }
             let br = b.resps[k].as_ref().unwrap();
             match o.resps.get(k) {
                 Some(Ok(r)) => {
